@@ -65,6 +65,7 @@ fn main() {
         Some("grlprobe") => models::grl::cmd_grlprobe(&args),
         Some("textchild") => models::text::cmd_textchild(&args),
         Some("kbstress") => models::kb::cmd_stress(&args),
+        Some("parrec") => models::parallel::cmd_parrec(&args),
         _ => {
             eprintln!("usage: vh replay|replay-one <model> <file> [opts]");
             2
